@@ -16,6 +16,7 @@ import importlib
 import io
 import json
 import os
+import random
 import time
 
 from common import CORPUS
@@ -64,6 +65,9 @@ def run(ctx):
     mods = _mods()
     _corpus(ctx, mods)
     for m in mods:
+        # every part draws from its own stream, so that a part's cases do not depend on the other parts
+        if not os.environ.get("C19_SHARED_RNG"):      # (debugging aid: one shared stream as in early runs)
+            ctx.rng = random.Random(f"C19:{m.__name__.split('.')[-1]}:{ctx.seed}")
         t0 = time.time()
         ev0 = ctx.evaluations
         r = m.run_part(ctx)
